@@ -96,9 +96,9 @@ Theorem c05_api_built_unique ops : NoDup (map fst (build_props ops)).
 Proof. exact (build_props_nodup ops). Qed.
 
 (* 8. The function the harness executes (extracted [decode_fast], linear time: it threads the
-   remaining input instead of re-walking Size() bytes) is the function the theorems are about. *)
-Theorem c05_model_fast p : decode_fast p = decode p.
-Proof. exact (decf_eq p). Qed.
+   remaining input instead of re-walking Size() bytes; [enc_fast] appends into an accumulator) is the function the theorems are about. *)
+Theorem c05_model_fast p v : decode_fast p = decode p /\ enc_fast v = enc v.
+Proof. split; [exact (decf_eq p)|exact (enc_fast_eq v)]. Qed.
 
 (* non-vacuity: a representable tree with nesting, a repeated key, an empty key, a signalling NaN,
    -0, an ECMA array with a foreign count and a strict array with elements *)
